@@ -321,6 +321,9 @@ pub struct Query {
     pub offset: Option<u64>,
     /// `SELECT count(*)`
     pub count: bool,
+    /// `SELECT g, count(*) .. GROUP BY g` (ORDER BY may then only name `g`, output position 0)
+    #[serde(default)]
+    pub group_by: Option<String>,
 }
 
 impl Query {
@@ -333,11 +336,14 @@ impl Query {
             limit: None,
             offset: None,
             count: false,
+            group_by: None,
         }
     }
     pub fn sql(&self) -> String {
         let mut s = String::from("SELECT ");
-        if self.count {
+        if let Some(g) = &self.group_by {
+            let _ = write!(s, "{g}, count(*)");
+        } else if self.count {
             s.push_str("count(*)");
         } else if self.cols.is_empty() {
             s.push('*');
@@ -346,6 +352,9 @@ impl Query {
         }
         let _ = write!(s, " FROM {}", self.table);
         s.push_str(&self.pred.sql());
+        if let Some(g) = &self.group_by {
+            let _ = write!(s, " GROUP BY {g}");
+        }
         if !self.order.is_empty() {
             s.push_str(" ORDER BY ");
             for (i, k) in self.order.iter().enumerate() {
@@ -492,6 +501,10 @@ impl Model {
         let Some((mut full, proj)) = self.eval_filter(q) else {
             return Expect::Err("no such column");
         };
+        if q.group_by.is_some() {
+            // grouped queries are checked metamorphically (C12) and by twin comparison (C05)
+            return Expect::Unknown;
+        }
         if q.count {
             return Expect::Rows {
                 rows: vec![vec![Val::Int(full.len() as i64)]],
